@@ -12,11 +12,11 @@ import (
 )
 
 // Shrunk form of the failure TestSteppedSchedule finds on idena-go 's tracker:
-// two items are being pulled; P3 announces the later-pulled one (h1) first, the
-// loop goes to sleep on that entry; P3 then announces the earlier-pulled one
+// two items are being pulled; P2 announces the later-pulled one (h1) first, the
+// loop goes to sleep on that entry; P2 then announces the earlier-pulled one
 // (h0), whose entry is sorted in front. After its sleep the loop treats index 0
-// as the entry it had peeked: it asks P3 for h1 but deletes P3's announcement of
-// h0 (never asked although it could serve h0) and keeps the h1 entry (P3 is asked
+// as the entry it had peeked: it asks P2 for h1 but deletes P2's announcement of
+// h0 (never asked although it could serve h0) and keeps the h1 entry (P2 is asked
 // for h1 a second time).
 func TestStaleHeadIndexRegression(t *testing.T) {
 	evid.Eval()
@@ -27,9 +27,9 @@ func TestStaleHeadIndexRegression(t *testing.T) {
 	w.announce(0, 1) // t=0.5: h1 pulled from P0, P1
 	w.announce(1, 1)
 	w.advance(100 * time.Millisecond)
-	w.announce(2, 1) // t=0.6: P3 pending for h1 (last pull 0.5)
+	w.announce(2, 1)                 // t=0.6: P2 pending for h1 (last pull 0.5)
 	w.advance(10 * time.Millisecond) // the idle poll sees it and sleeps until 1.5
-	w.announce(2, 0) // t=0.61: P3 pending for h0 (last pull 0) -> sorted ahead
+	w.announce(2, 0)                 // t=0.61: P2 pending for h0 (last pull 0) -> sorted ahead
 	w.finish()
 	if w.excluded {
 		evid.Count("a.regression.stale-head.known")
